@@ -269,7 +269,11 @@ pub fn eval_date(t: &u64) -> Outcome {
     let mut cfg = CCfg::basic(0);
     cfg.ctime = Some(*t);
     // one instant in four is configured twice (another instant first), through the Metadata setter or the builder alias
-    cfg.reconfig = [0, 0, 0, 1, 0, 0, 0, 4][(*t % 8) as usize];
+    cfg.reconfig = [0, 0, 0, 1, 0, 0, 0, 4][(*t % 8) as usize] | (((*t / 8) % 6) as u8) << 4;
+    if *t % 5 == 0 {
+        cfg.title = Some("t".into());
+        cfg.lang = Some("deu".into());
+    }
     match mux(&cfg, &tiny_ops(false)) {
         Ok((_, m)) => check_date(&mut o, &m, *t),
         Err(Some(p)) => o.aborted_by_panic = Some(p),
@@ -402,12 +406,19 @@ pub fn eval_lang(c: &(u16, bool)) -> Outcome {
         cfg.audio = 1;
     }
     cfg.lang = Some(String::from_utf8_lossy(&code).to_string());
-    cfg.reconfig = [0, 0, 1, 0, 4, 0, 2, 0][(idx % 8) as usize];
+    cfg.reconfig = [0, 0, 1, 0, 4, 0, 2, 0][(idx % 8) as usize] | (((idx / 8) % 6) as u8) << 4;
+    if idx % 5 == 0 {
+        cfg.title = Some("t".into());
+        cfg.ctime = Some(86_400 * 365);
+    }
     match mux(&cfg, &tiny_ops(audio)) {
         Ok((_, m)) => {
             check_lang(&mut o, &m, &code, "code");
-            if m.udta_present {
+            if m.udta_present && cfg.title.is_none() && cfg.ctime.is_none() {
                 o.fail("no_udta", "no_udta.language_only", "a language alone created a udta box");
+            }
+            if let Some(t) = cfg.ctime {
+                check_date(&mut o, &m, t);
             }
             if audio && m.tracks.len() != 2 {
                 o.class("missing_audio_track(C02)");
